@@ -252,5 +252,9 @@ pub fn conclude(
     eprintln!("HARNESS ERROR flag set (pool budget or escaped panic)");
     exit_code = 2;
   }
+  if crate::hashseed::UNSEEDED_RUN_THREAD.load(std::sync::atomic::Ordering::SeqCst) && exit_code == 0 {
+    eprintln!("HARNESS ERROR: a run thread created a hash map before its hash seed was installed (runs are not reproducible)");
+    exit_code = 2;
+  }
   Outcome { exit_code, unlisted, known: matched }
 }
